@@ -51,6 +51,13 @@ pub fn install_quiet_panic_hook() {
 }
 
 /// Run one decoded case through the property's oracles. Err(msg) = the harness itself panicked.
+pub fn decode_case(spec: &PropSpec, tape: &[u32]) -> Case {
+    match spec.decode {
+        Some(d) => d(tape),
+        None => gen_case(tape, &spec.profile),
+    }
+}
+
 pub fn run_one(spec: &PropSpec, case: &Case) -> Result<SeqOutcome, String> {
     if let Some(runner) = spec.runner {
         return catch_unwind(AssertUnwindSafe(|| runner(spec, case))).map_err(|p| format!("harness panic: {}", crate::world::classify_panic(p).text()));
@@ -100,7 +107,7 @@ pub fn run_prop(spec: &PropSpec, cases: u32, seed: u64, replay_dir: &str, known:
     let st = std::cell::RefCell::new(St::default());
 
     let result = runner.run(&strat, |tape| {
-        let case = gen_case(&tape, &spec.profile);
+        let case = decode_case(spec, &tape);
         let mut st = st.borrow_mut();
         let st = &mut *st;
         let mut out = match run_one(spec, &case) {
@@ -192,7 +199,7 @@ pub fn run_prop(spec: &PropSpec, cases: u32, seed: u64, replay_dir: &str, known:
     sum.harness_error = harness_error;
 
     if let Err(TestError::Fail(_, tape)) = result {
-        let case = gen_case(&tape, &spec.profile);
+        let case = decode_case(spec, &tape);
         let rule = run_one(spec, &case).ok().and_then(|o| o.violations.iter().find(|v| !known.contains(&v.rule)).map(|v| v.rule.clone()));
         let case = match &rule {
             Some(rule) => minimize_case(&case, &|c: &Case| {
